@@ -2,10 +2,12 @@ package main
 
 import (
 	"bufio"
+	"crypto/tls"
 	"fmt"
 	"net"
 	"os"
 	"regexp"
+	"runtime"
 	"sort"
 	"strconv"
 	"strings"
@@ -22,11 +24,12 @@ func init() {
 // case: "race <clients> <rounds> <seed> <flags>"  flags: config, churn, conns, lifecycle
 func genC14(tier string, seed uint64, emit func(string)) {
 	r := NewRng(seed)
-	n := 8
+	n := 12
 	if tier == "thorough" {
-		n = 64
+		n = 72
 	}
-	combos := []string{"config", "churn", "conns", "config,churn,conns", "config,churn,conns,lifecycle", "churn,lifecycle", "auth,config,churn", "auth,config,churn,conns,lifecycle"}
+	combos := []string{"config", "churn", "conns", "config,churn,conns", "config,churn,conns,lifecycle", "churn,lifecycle", "auth,config,churn", "auth,config,churn,conns,lifecycle",
+		"tls,flap,churn,lifecycle", "tls,config,churn,conns,lifecycle", "tls,flap,auth,config,churn,conns,lifecycle", "flap,churn,lifecycle"}
 	for i := 0; i < n; i++ {
 		clients := []int{2, 4, 8, 16, 32}[r.Intn(5)]
 		emit(fmt.Sprintf("race %d %d %d %s", clients, 30+r.Intn(60), r.U64()%1000000, combos[i%len(combos)]))
@@ -73,6 +76,30 @@ func runC14(toks []string) Result {
 	if flags["auth"] {
 		srv.SetRequirePass("pw")
 	}
+	tlsAddr := ""
+	if flags["tls"] {
+		tlsPort := freePort()
+		srv.SetTLSPort(tlsPort)
+		srv.SetTLSConfig(&tls.Config{MinVersion: tls.VersionTLS12, Certificates: []tls.Certificate{getPKI().serverCert}})
+		tlsAddr = "127.0.0.1:" + strconv.Itoa(tlsPort)
+	}
+	if flags["flap"] {
+		// lifecycle calls back to back, before any accept loop had a chance to run: first with one processor (the
+		// loops spawned by Start run only once the caller blocks in Stop), then with all of them
+		prev := runtime.GOMAXPROCS(1)
+		for i := 0; i < 3; i++ {
+			if err := srv.Start(); err != nil {
+				runtime.GOMAXPROCS(prev)
+				return Result{Obs: "start-failed", Oracle: "fail:start failed: " + err.Error()}
+			}
+			srv.Stop()
+		}
+		runtime.GOMAXPROCS(prev)
+		for i := 0; i < 40; i++ {
+			srv.Restart()
+		}
+		srv.Stop()
+	}
 	if err := srv.Start(); err != nil {
 		return Result{Obs: "start-failed", Oracle: "fail:start failed: " + err.Error()}
 	}
@@ -94,7 +121,13 @@ func runC14(toks []string) Result {
 				}
 				if conn == nil {
 					lifeMu.RLock()
-					cc, err := net.DialTimeout("tcp", addr, time.Second)
+					var cc net.Conn
+					var err error
+					if tlsAddr != "" && c%2 == 1 {
+						cc, err = tls.DialWithDialer(&net.Dialer{Timeout: time.Second}, "tcp", tlsAddr, &tls.Config{InsecureSkipVerify: true})
+					} else {
+						cc, err = net.DialTimeout("tcp", addr, time.Second)
+					}
 					lifeMu.RUnlock()
 					if err != nil {
 						time.Sleep(2 * time.Millisecond)
@@ -167,6 +200,11 @@ func runC14(toks []string) Result {
 				time.Sleep(15 * time.Millisecond)
 				lifeMu.Lock()
 				srv.Restart()
+				if flags["flap"] {
+					srv.Restart()
+					srv.Stop()
+					srv.Start()
+				}
 				lifeMu.Unlock()
 			}
 		}()
